@@ -27,7 +27,7 @@ def safety : Float := 4
 def cmp (name : String) (ang : Bool) (impl : Float) (m : RE) : Option String :=
   let d := Float.abs (impl - m.v)
   let d := if ang && d > 180 then Float.abs (360 - d) else d
-  if (impl.isNaN && m.v.isNaN) || impl == m.v || d ≤ safety * m.e || m.e.isNaN then none
+  if (impl.isNaN && m.v.isNaN) || impl == m.v || d ≤ safety * m.e || (m.e.isNaN && !m.v.isNaN && !impl.isNaN) then none
   else some s!"{name}: impl={impl} model={m.v} diff={d} bound={m.e}"
 
 def cmpAll (xs : List (String × Float × RE)) : List String := xs.filterMap fun (n, i, m) => cmp n false i m
